@@ -40,7 +40,11 @@ class World:
 
     def caption(self, span, tag, two):
         nodes = [self.ev("CaptionNode.create_text(t)", t=f"{tag}")]
-        if two:
+        if two == 3:        # a style opened in this caption and closed in a later one (italics over two concurrent lines)
+            nodes = [self.ev("CaptionNode.create_style(True, {'italics': True})")] + nodes
+        elif two == 4:
+            nodes += [self.ev("CaptionNode.create_style(False, {'italics': True})")]
+        elif two:
             nodes += [self.ev("CaptionNode.create_break()")]
         if two == 1:
             nodes += [self.ev("CaptionNode.create_text(t)", t=f"{tag}'")]
@@ -82,14 +86,19 @@ def _desc(cap):
     nodes = []
     for n in _items(cap.attrs["nodes"]):
         t = n.attrs.get("type_")
-        nodes.append("<br>" if t == 3 else str(n.attrs.get("content")) if t == 1 else f"<style {n.attrs.get('content')}>")
+        nodes.append("<br>" if t == 3 else str(n.attrs.get("content")) if t == 1 else
+                     f"<style {'on' if n.attrs.get('start') else 'off'} {n.attrs.get('content')}>")
     return (cap.attrs.get("start"), cap.attrs.get("end"), nodes, (cap.attrs.get("style") or {}).get("tag"))
 
 
 def _expected(seq):
     out = []
     for span, tag, two in seq:
-        nodes = [tag] + (["<br>"] if two else []) + ([tag + "'"] if two == 1 else [])
+        nodes = [tag] + (["<br>"] if two in (1, 2) else []) + ([tag + "'"] if two == 1 else [])
+        if two == 3:
+            nodes = ["<style on {'italics': True}>"] + nodes
+        elif two == 4:
+            nodes += ["<style off {'italics': True}>"]
         if out and out[-1][4] == span:
             out[-1][2].extend(["<br>"] + nodes)
         else:
@@ -140,6 +149,10 @@ def _explore(ctx, max_len):
                 # one caption that displays nothing (a blank): still a caption - it joins, starts and ends runs like any other
                 j = n_seq % len(seq)
                 seq[j] = (seq[j][0], " ", 0)
+            if n_seq % 7 == 3 and len(seq) >= 2:
+                # italics opened in the first caption and closed in the last: the nodes are carried over as they are
+                seq[0] = (seq[0][0], seq[0][1], 3)
+                seq[-1] = (seq[-1][0], seq[-1][1], 4)
             W.with_layout = n_seq % 2 == 0          # every other sequence: all captions positioned
             langs = {"en-US": [W.caption(*c) for c in seq]}
             if n_seq % 4 == 1:
